@@ -24,6 +24,7 @@ type c04Case struct {
 	Label   string   `json:"label"`
 	Results []string `json:"results"` // kinds of claimed results to test besides the correct one
 	Seed    uint64   `json:"seed"`
+	Noise   uint64   `json:"noise,omitempty"`
 }
 
 var c04ResultKinds = []string{"plus1", "minus1", "zero", "neg", "neighbour_lo", "neighbour_hi", "uniform", "double", "point_itself", "correct"}
@@ -35,6 +36,7 @@ func genC04(t *rapid.T) c04Case {
 		Label:   genLabel(t),
 		Results: rapid.SliceOfN(rapid.SampledFrom(c04ResultKinds), 3, 6).Draw(t, "results"),
 		Seed:    rapid.Uint64().Draw(t, "seed"),
+		Noise:   noiseSeedFrom(rapid.Uint64().Draw(t, "noise")),
 	}
 }
 
@@ -49,6 +51,7 @@ func evalC04(c c04Case, rec *hx.Rec) error {
 	if inDomain && want.Cmp(ev[z.Int64()]) != 0 {
 		panic(hx.Inconclusive{Msg: "reference evaluation inside the domain is not the evaluation itself"})
 	}
+	runNoise(c.Noise, 3, true)
 	var comm banderwagon.Element
 	if e := hx.Try(func() { comm = cfg.Commit(f) }); e != nil {
 		return e
